@@ -4,7 +4,7 @@ CONSTANTS
   TableValues <- MTables
   Queries <- MQueries
   FetchSizes <- Sizes
-  Variant = "shipped"
+  Variant = "cachebyname"
   MaxLevel = 5
 INIT Init
 NEXT Next
